@@ -31,6 +31,8 @@ def configs(draw, tier="quick"):
         c = draw(E.episode_cases(tier, max_points=8))
         if draw(st.sampled_from([False, False, False, True])):
             c["use_defaults"] = True
+        elif draw(st.sampled_from([False, False, True])):
+            c["state"] = ["features", draw(st.booleans())]      # features, one of them without any event callback
         if draw(st.sampled_from([False, False, True])):
             steps = len(c["gaps"])
             c["episode_length"] = draw(st.integers(1, max(1, steps - 2)))
@@ -201,6 +203,8 @@ def run(case):
         res.tag("episode-length")
     if a.get("empty_points"):
         res.tag("event-less-grid-timestep")
+    if a.get("state", ["rec"])[0] == "features" or b.get("state", ["rec"])[0] == "features":
+        res.tag("state-given-as-features")
     if alternations >= 2:
         res.tag("interleaved")
     if any("exception" in s for s in ta):
